@@ -13,7 +13,7 @@ import hashlib
 import json
 import os
 
-from ..check import Prop, Violation
+from ..check import Prop, Stream, Violation
 from .. import accessgen, gobuild, leanside, streams_race
 
 
@@ -67,11 +67,21 @@ def finding_of(key, kindA=None, kindB=None):
     return None
 
 
+def gen_wire_groups(r, tier):
+    ops = ["#case wire groups"]
+    for _ in range(40 if tier == "quick" else 400):
+        cas = [r.pick(["none", "none", "direct", "pid:x3fd3333333333333:x3f947ae147ae147b:x3f747ae147ae147b"]) for _ in range(r.range(2, 5))]
+        ops.append("wire.group cas=" + ",".join(cas))
+    return ops
+
+
 class C20(Prop):
     id = "C20"
     lean_modules = ["Fan2go.Props.C20"]
     fact_modules = []
-    streams = []
+    # state that is supposed to be per controller must BE per controller: several fans wired by one call of the real
+    # initializeFanControllers get control loops of their own (seed C20h: one default PID loop, hoisted, for all fans)
+    streams = [Stream("wiring-groups", gen_wire_groups, parallel=2)]
     rule = ("lockset: two accesses of different (concurrent) activities to the same struct field, one a write, must hold a "
             "common mutex; table re-extracted from the tree by go/accessgen, conflicts computed by the Lean kernel")
     assumptions = [
@@ -117,6 +127,18 @@ class C20(Prop):
     def classify(self, v):
         d = v.detail or {}
         return d.get("finding")
+
+    def oracle(self, name, ops, go):
+        out = []
+        for op, g in zip(ops, go):
+            if op.startswith("wire.group") and (not g.startswith("ok") or " shared=0" not in g):
+                out.append(Violation(f"fans wired together share control-loop state: {op} -> {g}: controllers that run on goroutines of their own "
+                                     "call Cycle on ONE loop object without any lock", stream=name, case_ops=["#case wire groups", op],
+                                     go=["#case wire groups", g]))
+        return out
+
+    def nontrivial(self, name, ops, go):
+        return {tuple(sorted(set(o.split("cas=")[1].split(",")))) for o in ops if o.startswith("wire.group")}
 
     def extra(self, ctx):
         # extraction, proof build and race run must see the same tree; if /repo is edited while this runs
